@@ -136,7 +136,8 @@ impl ChannelParser {
                     .segments
                     .iter()
                     .map(|seg| {
-                        let ident = seg.ident.to_string();
+                        // `r#Kind` names the type `Kind`
+                        let ident = seg.ident.unraw().to_string();
                         // Handle generic arguments if present
                         if let PathArguments::AngleBracketed(args) = &seg.arguments {
                             let generic_args: Vec<String> = args
